@@ -613,7 +613,11 @@ class C04(Check):
         "Python set iteration order (scope.conjoin inside DMRS.scopes) is not modelled: the model of from_dmrs receives "
         "the scope labels the implementation chose; theorems hold for every choice",
         "warnings are not observed; lnk is a character span or absent",
-        "the isomorphism clause is checked by mrs.is_isomorphic and by an independent backtracking search, not proved",
+        "the isomorphism clause is checked by mrs.is_isomorphic and by an independent backtracking search; proved only in "
+        "positional form (arguments, handle constraints, label sharing per position: PropsRT.lean §3)",
+        "second_conversion_stable_partial carries the decidable hypothesis RepsAgree (representatives of m and of the "
+        "MRS that comes back sit at the same positions); the driver evaluates it, with RolesOk / IVSorts / RstrLinked / "
+        "BaseIdsDistinct, on every case and the run fails if one is false on a case of the space without a starved group",
         "DMRS identifies the variable a quantifier binds with the target of its RSTR link (first representative of the "
         "restriction): MRSs whose quantifier binds another member of the restriction are counted as outside the space "
         "(the round trip rebinds the quantifier); likewise intrinsic variables of sorts outside x/e/i/p/u "
